@@ -424,10 +424,22 @@ def run_harness_parallel(exe, lines, jobs=None):
     return out, crashes
 
 
+def strip_ref(line):
+    """a record's last field is the verdict of the harness's lock-step
+    std::vector mirror: it is judged by the oracle, it is not something the
+    model predicts"""
+    if line is None:
+        return None
+    return " | ".join(r[:-4] if r.endswith(";BAD") else (r[:-3] if r.endswith(";ok") else r) for r in line.split(" | "))
+
+
 LIFETIME_KEYS = ("lifetime-", "leak", "destruction:", "sanitizer")
 
 
-def lifetime_error_agreed(mo, ho, key):
+UNOBSERVABLE = [0]
+
+
+def lifetime_error_agreed(mo, ho, key, T=None):
     """the model stops at the first lifetime error (ERR:<kind> after k records);
     the implementation keeps running and shows it as a Tracked flag, a leak,
     objects left alive or a sanitizer report.  They agree when the records
@@ -435,12 +447,19 @@ def lifetime_error_agreed(mo, ho, key):
     recs = mo.split(" | ")
     if not recs[-1].startswith("ERR:") or recs[-1] in ("ERR:BadRange",):
         return False
+    if ho is None or ho.startswith("CRASH"):
+        return bool(key)
+    hrecs = ho.split(" | ")
+    same_prefix = [strip_ref(r) for r in hrecs[:len(recs) - 1]] == [strip_ref(r) for r in recs[:-1]]
+    if T == "s" and recs[-1] in ("ERR:Leak", "ERR:DoubleConstruct") and same_prefix and not key:
+        # a std::string that is leaked or constructed over while it owns no buffer
+        # (moved-from / empty) leaves nothing for ASan/LSan to see; the same scripts
+        # run with Tracked, where every such event is counted
+        UNOBSERVABLE[0] += 1
+        return True
     if not key or not any(t in key for t in LIFETIME_KEYS):
         return False
-    if ho is None or ho.startswith("CRASH"):
-        return True
-    hrecs = ho.split(" | ")
-    return hrecs[:len(recs) - 1] == recs[:-1]
+    return same_prefix
 
 
 def shrink(exe, T, S, ops, key):
@@ -587,9 +606,10 @@ def run(ck):
                                   "how": "echo '%s' | <harness h_smallvec>   (ops: see harness/h_smallvec.cc)" % sl})
             else:
                 ck.add_violation(key, what, {"case": lines[k]})
-        if ho != mo and not lifetime_error_agreed(mo, ho, key):
+        if strip_ref(ho) != strip_ref(mo) and not lifetime_error_agreed(mo, ho, key, T):
             ck.add_diff({"case": lines[k]}, mo, ho)
     ck.coverage["ops"] = hist
+    ck.coverage["model_lifetime_errors_unobservable_with_std_string"] = UNOBSERVABLE[0]
     ck.coverage["element_types"] = "int, double, std::string, Tracked"
     ck.coverage["inline_capacities"] = "1..8"
     return ck.finish(
